@@ -330,20 +330,50 @@ func derivesFromNow(v ssa.Value) bool {
 	if !ok || !staticIs(cv, "(time.Time).Unix") {
 		return false
 	}
-	x := resolve(cv.Call.Args[0])
-	for n := 0; n < 4; n++ {
-		xc, ok := x.(*ssa.Call)
-		if !ok {
-			return false
+	return instantFromNow(cv.Call.Args[0], map[ssa.Value]bool{}, 0)
+}
+
+// instantFromNow: the time.Time value is time.Now(), possibly truncated / converted to UTC, on every way it can be
+// assigned (phis and multiply-assigned locals included).
+func instantFromNow(x ssa.Value, seen map[ssa.Value]bool, depth int) bool {
+	if depth > 8 {
+		return false
+	}
+	if seen[x] {
+		return true
+	}
+	seen[x] = true
+	switch y := x.(type) {
+	case *ssa.Phi:
+		for _, e := range y.Edges {
+			if !instantFromNow(e, seen, depth+1) {
+				return false
+			}
 		}
+		return len(y.Edges) > 0
+	case *ssa.UnOp:
+		if y.Op == token.MUL {
+			if a, isA := y.X.(*ssa.Alloc); isA {
+				st := localStores(a)
+				for _, sv := range st {
+					if !instantFromNow(sv, seen, depth+1) {
+						return false
+					}
+				}
+				return len(st) > 0
+			}
+		}
+	case *ssa.Call:
 		switch {
-		case staticIs(xc, "time.Now"):
+		case staticIs(y, "time.Now"):
 			return true
-		case staticIs(xc, "(time.Time).Truncate"), staticIs(xc, "(time.Time).UTC"):
-			x = resolve(xc.Call.Args[0])
-		default:
-			return false
+		case staticIs(y, "(time.Time).Truncate"), staticIs(y, "(time.Time).UTC"):
+			return instantFromNow(y.Call.Args[0], seen, depth+1)
 		}
+		return false
+	}
+	if r := resolve(x); r != x {
+		return instantFromNow(r, seen, depth+1)
 	}
 	return false
 }
